@@ -107,9 +107,15 @@ ResOK(e) == res = e.res \/ (HasAbsent /\ res \in {"RelateException", "UnrelateEx
 \* A class whose CREATE TABLE statement has not been accepted when the metamodel is built (e.undecl[c], given by the
 \* schedule: "pos" / "named" = the first accepted row of the class is a positional / named insert, "none" = no row) is
 \* inferred from that row: attributes _0, _1, ... (or the names given) with the type guessed from each value.
-Undecl(e, c) == IF "undecl" \in DOMAIN e /\ c \in DOMAIN e.undecl THEN e.undecl[c] ELSE "declared"
+\* (e.infer[c], on a load event: the same for a population loaded without the CREATE TABLE statement of c; "ser" = as
+\* serialize_instances writes it: positional, a boolean as 0 / 1, from which an integer is guessed)
+Undecl(e, c) == IF "undecl" \in DOMAIN e /\ c \in DOMAIN e.undecl THEN e.undecl[c]
+                ELSE IF "infer" \in DOMAIN e /\ c \in DOMAIN e.infer THEN (IF pool[c] = <<>> THEN "none" ELSE e.infer[c])
+                ELSE "declared"
 DeclAttrs(c) == [j \in DOMAIN Attrs[c] |-> <<Attrs[c][j].n, Attrs[c][j].t>>]
 ExpAttrs(e, c) == CASE Undecl(e, c) = "pos" -> [j \in DOMAIN Attrs[c] |-> <<"_" \o ToString(j - 1), Attrs[c][j].t>>]
+                    [] Undecl(e, c) = "ser" -> [j \in DOMAIN Attrs[c] |-> <<"_" \o ToString(j - 1),
+                                                    IF Attrs[c][j].t = "BOOLEAN" THEN "INTEGER" ELSE Attrs[c][j].t>>]
                     [] Undecl(e, c) = "none" -> <<<<"?", "?">>>>
                     [] OTHER -> DeclAttrs(c)
 SchemaOK(e) ==
